@@ -748,6 +748,37 @@ func mimeTable(m *mail.Msg) string {
 	return strings.Join(out, ",")
 }
 
+// checkFirstRender: an independent reader of the FIRST rendering sees, for every file, the name that was attached
+// after the documented replacement of control and path characters (bytes < 32, DEL, and " / : < > ? \ |) - the
+// reference is the documented rule (func sanitized), not the library's function
+func (s spec) checkFirstRender(r *hx.Run, id string, r1 []byte) {
+	_, leaves, _, err := readMIME(r1)
+	if err != nil {
+		return // unreadable first renderings are C01's subject; the re-render checks report them for C10
+	}
+	var embs, atts []leaf
+	for _, l := range leaves {
+		switch l.disp {
+		case "attachment":
+			atts = append(atts, l)
+		case "inline":
+			embs = append(embs, l)
+		}
+	}
+	chk := func(kind string, want []fileSpec, got []leaf) {
+		if len(want) != len(got) {
+			return
+		}
+		for i, w := range want {
+			if got[i].name != sanitized(w.name) {
+				r.Fail(id, "first-render-filename", fmt.Sprintf("%s name %q is rendered as %q (documented replacement gives %q)", kind, w.name, got[i].name, sanitized(w.name)))
+			}
+		}
+	}
+	chk("attachment", s.atts, atts)
+	chk("embed", s.embs, embs)
+}
+
 // ---------- one case ----------
 
 func runRT(r *hx.Run, id string, s spec) {
@@ -772,6 +803,7 @@ func runRT(r *hx.Run, id string, s spec) {
 		r.AddOracleOnly(c, true)
 		return
 	}
+	s.checkFirstRender(r, id, r1)
 	res := emlx.Parse(r1, -1, 0, 10*time.Second)
 	// T3: the model's prediction for the getters of m2 and the field names of R2
 	tree := emlx.Tree(r1, -1, 0)
@@ -841,6 +873,7 @@ func runFname(r *hx.Run, id string, name string) {
 		r.AddOracleOnly(c, true)
 		return
 	}
+	spec{atts: []fileSpec{{name, []byte("data")}}}.checkFirstRender(r, id, r1)
 	res := emlx.Parse(r1, -1, 0, 10*time.Second)
 	if res.Msg == nil || len(res.Msg.GetAttachments()) != 1 {
 		r.Fail(id, "fname-parse-"+res.Obs, fmt.Sprintf("name %q: %s", name, res.Obs))
@@ -910,8 +943,14 @@ func (x g) text(html bool) string {
 	return sb.String()
 }
 
+var oddRunes = []string{"\u00a0", "\u3000", "\u200c", "\u200d", "\u00ad", "\u2028", "\ufeff", "\u0085"}
+
 func (x g) fileName() string {
 	ext := []string{".txt", ".pdf", ".png", ".bin", "", ".tar.gz"}[x.n(6)]
+	if x.p(8) {
+		// printable-looking names with non-ASCII spaces and format characters (not control, not path characters)
+		return x.words(1, 0) + oddRunes[x.n(len(oddRunes))] + x.words(1, 20) + ext
+	}
 	switch x.n(12) {
 	case 0:
 		return "a;b" + ext
@@ -1174,6 +1213,11 @@ func Run(r *hx.Run, replay []hx.Case) {
 	for b := 32; b < 127; b++ {
 		for _, f := range []string{"%sx.txt", "a%sb.txt", "ab%s"} {
 			runFname(r, r.NewID(), fmt.Sprintf(f, string(rune(b))))
+		}
+	}
+	for _, o := range oddRunes {
+		for _, f := range []string{"%sx.txt", "a%sb.txt", "ab%s", "r\u00e9sum\u00e9%s.pdf"} {
+			runFname(r, r.NewID(), fmt.Sprintf(f, o))
 		}
 	}
 	for i := 0; i < nfn && !r.Expired(); i++ {
